@@ -32,13 +32,13 @@ CHECKS = {
         "design_ref": "DESIGN.md section 8 / C07",
     },
     "C04": {
-        "technique": "Lean 4 model of the WHOLE compiler (model engine on the reader's table regenerated from /repo + model of the three grammar visitors as a structural recursion over the parse tree) with theorems (a rule text is rejected with ParseError exactly when it is not derivable from `rule`; layout children never reach the compiled structure; decoders of repeat bounds / num-val / char-val / defined-as) + correspondence of that model with Rule.create on generated, corrupted, boundary and all bundled rule texts + generated ABNF ASTs rendered with random layout, compiled through 7 routes, object graph compared with the AST's denotation, shared core / reader rules snapshotted around every compile",
+        "technique": "Lean 4 model of the WHOLE compiler (model engine on the reader's table regenerated from /repo + model of the three grammar visitors as a structural recursion over the parse tree) with theorems (a rule text is rejected with ParseError exactly when it is not derivable from `rule`; layout children never reach the compiled structure; decoders of repeat bounds / num-val / char-val / defined-as; C04.prose_val_reference_iff_rulename: a prose value compiles to a reference exactly when its inner text is derived from the reader's own rulename rule) + correspondence of that model with Rule.create on generated, corrupted, boundary and all bundled rule texts + generated ABNF ASTs rendered with random layout, compiled through 7 routes, object graph compared with the AST's denotation, shared core / reader rules snapshotted around every compile",
         "text": "C04.create_rejects_iff_not_derivable, layout_children_ignored and the decoder theorems are proved for all texts / trees in the Lean model; the model is tied to the code by comparing, text by text, the compiled structure (or the exception class) of Rule.create with the model's; that the reader's chosen tree abstracts to the AST a text was rendered from (unambiguity of ABNF modulo layout) is validated differentially, not proved.",
         "design_ref": "DESIGN.md section 8 / C04",
     },
     "C10": {
-        "technique": "Lean 4 proof (frame theorem over a registry state machine: operations through class A never change what another class resolves or its rule objects) + STEP-BY-STEP correspondence of that state machine with the real registry (random operation sequences over base class, reader class, subclasses and a derived subclass; returned object, whole map, every object's owner / name / definition compared after every operation) + definition histories in fresh subprocesses with before/after behaviour snapshots",
-        "text": "Registry model theorems (lookup idempotent, case-insensitive, own-or-core resolution, isolation frame) for all operation sequences; tied to the code by random definition histories (incl. core / meta-grammar name collisions) in fresh subprocesses.",
+        "technique": "Lean 4 proof (frame theorem over a registry state machine: operations through class A never change what another class resolves or its rule objects; C10.interleaved_isolation: the same under ANY interleaving of the registry operations of any number of other classes) + STEP-BY-STEP correspondence of that state machine with the real registry (random operation sequences over base class, reader class, subclasses and a derived subclass; returned object, whole map, every object's owner / name / definition compared after every operation) + definition histories in fresh subprocesses with before/after behaviour snapshots",
+        "text": "Registry model theorems (lookup idempotent, case-insensitive, own-or-core resolution, isolation frame, isolation under interleaving) for all operation sequences; tied to the code by random definition histories (incl. core / meta-grammar name collisions) in fresh subprocesses.",
         "design_ref": "DESIGN.md section 8 / C10",
     },
     "C12": {
@@ -98,7 +98,7 @@ CHECKS = {
     },
     "C11": {
         "technique": "Lean 4 proof: the engine model computes the reference SET semantics refEnds - first-match = the first alternative whose set is non-empty, exclusion = whole-span test - for every grammar with min <= max, every assignment of flags and exclusion pairs, every source and offset (C11.ends_are_reference, P1), and clause by clause (first_match, flag_off_union, exclusion, flag_last_write_wins) + differential on generated grammars with dense flags/exclusions (API and ABNF-text route) and toggle sequences, adjudicated by the reference semantics",
-        "text": "Theorems about altEval with the flag on/off and about the exclusion filter for all grammars and inputs; tie: end sets on generated flagged grammars and after toggle sequences through the public property.",
+        "text": "Theorems about altEval with the flag on/off and about the exclusion filter for all grammars and inputs (and C11.parse_is_max_of_reference: parse returns the greatest member of the reference set on every grammar); tie: end sets on generated flagged grammars and after toggle sequences through the public property.",
         "design_ref": "DESIGN.md section 8 / C11",
     },
     "C17": {
